@@ -152,6 +152,7 @@ func c10SharedConfig(p *load.Program, r *oblig.Report) {
 
 func runC10(p *load.Program, r *oblig.Report) {
 	c10SharedConfig(p, r)
+	c10GoroutineResults(p, r)
 	// batch.err is not guarded by a lock: it is published by the close of batch.done (store before close, loads after
 	// the receive), which is C01.R2
 	shareRules(r, "C10", "C10.R7 a batch result is handed over through the close of its done channel", func(sub *oblig.Report) { c01WaitBeforeRead(p, sub) })
@@ -595,4 +596,71 @@ func draftGuards(accs []fieldAccess) {
 			fmt.Fprintf(os.Stderr, "  %q: {\"d\":%q,\"why\":\"\"},\n", f, d)
 		}
 	}
+}
+
+// c10GoroutineResults: a function that starts a goroutine and does not wait for it must not share its own named
+// results with it: the function writes them when it returns (and on its other paths) while the goroutine may still
+// be running. Results travel through channels.
+func c10GoroutineResults(p *load.Program, r *oblig.Report) {
+	const rule = "C10.R8 goroutines do not write their starter's results"
+	n := 0
+	var bad []string
+	for _, fn := range p.EveryModuleFunction() {
+		if !strings.HasPrefix(fn.Pkg.Pkg.Path(), load.ModPath) {
+			continue
+		}
+		named := map[string]bool{}
+		res := fn.Signature.Results()
+		for i := 0; i < res.Len(); i++ {
+			if res.At(i).Name() != "" && res.At(i).Name() != "_" {
+				named[res.At(i).Name()] = true
+			}
+		}
+		for _, b := range fn.Blocks {
+			for _, ins := range b.Instrs {
+				g, ok := ins.(*ssa.Go)
+				if !ok {
+					continue
+				}
+				mc, isMC := g.Call.Value.(*ssa.MakeClosure)
+				if !isMC {
+					continue
+				}
+				n++
+				body := mc.Fn.(*ssa.Function)
+				for i, bnd := range mc.Bindings {
+					al, isAl := bnd.(*ssa.Alloc)
+					if !isAl || !named[al.Comment] {
+						continue
+					}
+					fv := body.FreeVars[i]
+					an.EachInstrDeep(body, func(_ *ssa.Function, i2 ssa.Instruction) {
+						if st, isSt := i2.(*ssa.Store); isSt && st.Addr == ssa.Value(fv) {
+							bad = append(bad, an.ShortFunc(fn)+": the goroutine started at "+p.Pos(g.Pos())+" writes the result "+al.Comment+" at "+p.Pos(st.Pos()))
+						}
+					})
+				}
+			}
+		}
+	}
+	sort.Strings(bad)
+	r.Check(len(bad) == 0, rule, "no goroutine body stores into a named result of the function that started it", "-", fmt.Sprintf("%d go statements with a closure examined", n), strings.Join(bad, "; "))
+	r.RequireCount(rule, n, 5)
+	// a *rand.Rand made with rand.New is not safe for concurrent use: it is never kept in a package-level variable
+	// (every pool goroutine has its own)
+	var globals []string
+	for _, pkg := range p.Prog.AllPackages() {
+		if pkg.Pkg == nil || !strings.HasPrefix(pkg.Pkg.Path(), load.ModPath) {
+			continue
+		}
+		for _, m := range pkg.Members {
+			if gl, ok := m.(*ssa.Global); ok {
+				if pt, isP := deref(gl.Type()).Underlying().(*types.Pointer); isP && an.NamedIs(pt.Elem(), "math/rand", "Rand") {
+					globals = append(globals, pkg.Pkg.Path()+"."+gl.Name())
+				}
+			}
+		}
+	}
+	sort.Strings(globals)
+	r.Check(len(globals) == 0, "C10.R9 no shared pseudo-random source", "no package-level *math/rand.Rand", "-", "rand.New(...) results stay local to one goroutine", strings.Join(globals, ", "))
 }
